@@ -39,3 +39,18 @@ Example C15_runs :
                         (network3_spec (S:=ZS) [0;1] [1;2] [2;3] [5;2] [2;5] [5;2] A B C o)) [[0;0];[4;1];[3;0]])
   = (0, 2, [true;true;true], [true;true;true]).
 Proof. vm_compute. reflexivity. Qed.
+
+(** * Tie to the source (translator): extractor_contract_3::contract_impl (network_contraction.h) with
+    triplet_flop_cost (opmin_meta.h), as translated on every run: each branch of which_variant contracts a pair of
+    the tensors under their own index lists, names the result by the index list the cost model derives from that
+    same pair, and contracts it with the third tensor under the third index list; the branches are the three pairs.
+    Four and more tensors (extractor_contract_4..) are tied by the correspondence only. *)
+From Coq Require Import Arith Bool.
+From FastorV Require Import Gen.GeneratedAccess Proofs.GenAccessEq.
+Local Open Scope nat_scope.
+Theorem C15_source_three_tensor_orders :
+  forallb network3_ok gen_network3 = true /\
+  map (fun e : nat * (nat * nat) * (nat * nat) * nat * (nat * nat) * nat * nat * bool => let '(v, p, _, _, _, _, _, _) := e in (v, p)) gen_network3
+  = [(0, (0, 1)); (1, (0, 2)); (2, (1, 2))].
+Proof. exact gen_network3_ok. Qed.
+Print Assumptions C15_source_three_tensor_orders.
